@@ -37,11 +37,20 @@ def main():
                                "--exclude", "content", "--exclude", "demo", "--exclude", "packages",
                                REPO + "/", scratch + "/"])
         for c in reverts:
-            d = subprocess.check_output(["git", "-C", REPO, "show", "--format=", c])
+            d = subprocess.check_output(["git", "-C", "/repo", "show", "--format=", c, "--", "src"])
+            if subprocess.run(["patch", "-R", "-p1", "-s", "-f", "--dry-run", "-d", scratch], input=d, stdout=subprocess.DEVNULL, stderr=subprocess.DEVNULL).returncode != 0:
+                print("PATCH-DOES-NOT-APPLY revert %s" % c)
+                return 3
             subprocess.run(["patch", "-R", "-p1", "-s", "-d", scratch], input=d, check=True)
         for p in patches:
+            if subprocess.run(["patch", "-p1", "-s", "-f", "--dry-run", "-d", scratch, "-i", p], stdout=subprocess.DEVNULL, stderr=subprocess.DEVNULL).returncode != 0:
+                print("PATCH-DOES-NOT-APPLY %s" % p)
+                return 3
             subprocess.run(["patch", "-p1", "-s", "-d", scratch, "-i", p], check=True)
         for p in rpatches:
+            if subprocess.run(["patch", "-R", "-p1", "-s", "-f", "--dry-run", "-d", scratch, "-i", p], stdout=subprocess.DEVNULL, stderr=subprocess.DEVNULL).returncode != 0:
+                print("PATCH-DOES-NOT-APPLY %s" % p)
+                return 3
             subprocess.run(["patch", "-R", "-p1", "-s", "-d", scratch, "-i", p], check=True)
         env = dict(os.environ)
         env["ILCHECK_REPO"] = scratch
